@@ -144,13 +144,61 @@ impl Identifier {
         &&& ((t == "us"@ || t == "µs"@) ==> r == Some(TimeUnit::MicroSecond)) &&& (t == "ns"@ ==> r == Some(TimeUnit::NanoSecond))
         &&& (t == "dt"@ ==> r == Some(TimeUnit::Cycle)) &&& (t == "im"@ ==> r == Some(TimeUnit::Imaginary)) }) }),      //@C03,C06:time-unit-spellings
     first::<Identifier>(%s) is None ==> r is None,''' % (KS, KS)))])
+    # D41 (BinExpr::op_details): `self.syntax().children_with_tokens().filter_map(|it| it.into_token()).find_map(|c| { BODY })` -- the
+    # iterator frame (the first child token for which BODY yields an operator) stays pinned; BODY, the table token kind -> operator, is
+    # copied from /repo on every run into oq3_op_of_token and verified against the operator table bin_op_of written from OpenQASM 3
+    ops = U.file('crates/oq3_syntax/src/ast/operators.rs')
+    for _en in ('BinaryOp', 'LogicOp', 'CmpOp', 'Ordering', 'ArithOp'):
+        ops.item('enum', _en)
+    _ext = open(os.path.join(REPO, EXT)).read()
+    _mo = re.search(r"pub fn op_details\(&self\) -> Option<\(SyntaxToken, BinaryOp\)> \{\n\s*self\.syntax\(\)\.children_with_tokens\(\)\.filter_map\(\|it\| it\.into_token\(\)\)\.find_map\(\|c\| \{\n(.*?)\n        \}\)\n    \}\n", _ext, re.S)
+    U.op_details_ok = bool(_mo)
+    if _mo:
+        _body = re.sub(r'(?m)^\s*#\[rustfmt::skip\]\n', '', _mo.group(1))
+        U.raw('''/// the operator table of OpenQASM 3, by token kind (written from the language, not from the code)
+pub open spec fn bin_op_of(k: SyntaxKind) -> Option<BinaryOp> {
+    match k {
+        SyntaxKind::PIPE2 => Some(BinaryOp::LogicOp(LogicOp::Or)), SyntaxKind::AMP2 => Some(BinaryOp::LogicOp(LogicOp::And)),
+        SyntaxKind::EQ2 => Some(BinaryOp::CmpOp(CmpOp::Eq { negated: false })), SyntaxKind::NEQ => Some(BinaryOp::CmpOp(CmpOp::Eq { negated: true })),
+        SyntaxKind::LTEQ => Some(BinaryOp::CmpOp(CmpOp::Ord { ordering: Ordering::Less, strict: false })),
+        SyntaxKind::GTEQ => Some(BinaryOp::CmpOp(CmpOp::Ord { ordering: Ordering::Greater, strict: false })),
+        SyntaxKind::L_ANGLE => Some(BinaryOp::CmpOp(CmpOp::Ord { ordering: Ordering::Less, strict: true })),
+        SyntaxKind::R_ANGLE => Some(BinaryOp::CmpOp(CmpOp::Ord { ordering: Ordering::Greater, strict: true })),
+        SyntaxKind::PLUS => Some(BinaryOp::ArithOp(ArithOp::Add)), SyntaxKind::STAR => Some(BinaryOp::ArithOp(ArithOp::Mul)),
+        SyntaxKind::MINUS => Some(BinaryOp::ArithOp(ArithOp::Sub)), SyntaxKind::SLASH => Some(BinaryOp::ArithOp(ArithOp::Div)),
+        SyntaxKind::PERCENT => Some(BinaryOp::ArithOp(ArithOp::Rem)), SyntaxKind::SHL => Some(BinaryOp::ArithOp(ArithOp::Shl)),
+        SyntaxKind::SHR => Some(BinaryOp::ArithOp(ArithOp::Shr)), SyntaxKind::CARET => Some(BinaryOp::ArithOp(ArithOp::BitXor)),
+        SyntaxKind::PIPE => Some(BinaryOp::ArithOp(ArithOp::BitOr)), SyntaxKind::AMP => Some(BinaryOp::ArithOp(ArithOp::BitAnd)),
+        SyntaxKind::EQ => Some(BinaryOp::Assignment { op: None }),
+        SyntaxKind::PLUSEQ => Some(BinaryOp::Assignment { op: Some(ArithOp::Add) }), SyntaxKind::STAREQ => Some(BinaryOp::Assignment { op: Some(ArithOp::Mul) }),
+        SyntaxKind::MINUSEQ => Some(BinaryOp::Assignment { op: Some(ArithOp::Sub) }), SyntaxKind::SLASHEQ => Some(BinaryOp::Assignment { op: Some(ArithOp::Div) }),
+        SyntaxKind::PERCENTEQ => Some(BinaryOp::Assignment { op: Some(ArithOp::Rem) }), SyntaxKind::SHLEQ => Some(BinaryOp::Assignment { op: Some(ArithOp::Shl) }),
+        SyntaxKind::SHREQ => Some(BinaryOp::Assignment { op: Some(ArithOp::Shr) }), SyntaxKind::CARETEQ => Some(BinaryOp::Assignment { op: Some(ArithOp::BitXor) }),
+        SyntaxKind::PIPEEQ => Some(BinaryOp::Assignment { op: Some(ArithOp::BitOr) }), SyntaxKind::AMPEQ => Some(BinaryOp::Assignment { op: Some(ArithOp::BitAnd) }),
+        SyntaxKind::DOUBLE_PLUS => Some(BinaryOp::ConcatenationOp), SyntaxKind::DOUBLE_STAR => Some(BinaryOp::PowerOp),
+        _ => None,
+    }
+}
+/// what BinExpr::op_details makes of ONE child token: the body of its `find_map` closure, copied from /repo on this run (D41)
+fn oq3_op_of_token(c: SyntaxToken) -> (r: Option<(SyntaxToken, BinaryOp)>)
+    ensures
+        // every operator token is the operator of the OpenQASM 3 table, anything else (trivia included) is none
+        r == (match bin_op_of(c.sp_kind()) { Some(op) => Some((c, op)), None => None::<(SyntaxToken, BinaryOp)> }),      //@C05,C06:operator-token-table
+{
+''' + _body + '''
+}
+''', note='D41: operator table of BinExpr::op_details copied from /repo')
+        U.build_log = getattr(U, 'build_log', []) + [('D41', 'BinExpr::op_details: the body of its find_map closure (token kind -> BinaryOp) -> oq3_op_of_token (copied from /repo; the iterator frame stays pinned)')]
     # every other hand-written accessor of node_ext.rs / expr_ext.rs / type_ext.rs: not verified (token-level iterator chains, string
     # slicing); SEMA sees them as opaque accessors.  Their text is pinned, so that a change is "no verdict", never a silent pass.
     U.n_pinned = 0
     # token_ext.rs: the values of integer / float / bit-string literal tokens (IntNumber::value feeds every width and register length: C09)
     tke = U.file('crates/oq3_syntax/src/ast/token_ext.rs')
+    if U.op_details_ok:
+        e.guard('op_details', None, impl='ast::BinExpr', why='BinExpr::op_details: the iterator frame (first child token that is an operator) is pinned; its operator table is verified (D41)')
+        U.entries[-1].hash_strip = [_mo.group(1)]
     for fc in (n, e, tf, tke):
-        U.n_pinned += fc.guard_rest('hand-written AST accessor outside the verified set: opaque to the analyser model; text pinned')
+        U.n_pinned += fc.guard_rest('hand-written AST accessor outside the verified set: opaque to the analyser model; text pinned', skip=((('ast::BinExpr', 'op_details'),) if U.op_details_ok else ()))
     # generated/nodes.rs, generated/tokens.rs (sourcegen output: `support::child / children / token` one-liners, casts by kind): the
     # units see these accessors as opaque functions of the node; the files are pinned as a whole
     g.guard_file('generated typed-AST accessors (support::child / children / token one-liners; casts by kind): opaque to the units, pinned as a whole')
